@@ -13,6 +13,7 @@
 #include <sys/syscall.h>
 #include <linux/futex.h>
 #include <map>
+#include <set>
 #include <algorithm>
 
 extern "C" {
@@ -31,7 +32,7 @@ long __real_sysconf(int);
 SimConfig::SimConfig()
   : seed(1), policy(POL_UNIFORM), pct_depth(2), pct_len(200), sticky_permille(850), quantum(3),
     spurious_budget(0), spurious_permille(0), starve_victim(-1), starve_from(0), starve_len(0), preempt_budget(0), preempt_gap_log2(10),
-    nprocs(4), max_steps(1000000), stall_seconds(120), use_replay(false)
+    first_use_delay(0), nprocs(4), max_steps(1000000), stall_seconds(120), use_replay(false)
 {}
 
 // Under TSan, libc functions such as memmove are intercepted even when called
@@ -65,6 +66,7 @@ struct SimThread
   void *arg;
   void *ret;
   long prio;            // PCT priority (higher runs first)
+  long delayed_until;   // first-use delay: not picked before this decision number while others are enabled
   struct RealWorker *host; // pooled real thread running this simulated thread (non-TSan builds)
 };
 
@@ -93,6 +95,7 @@ struct Sched
   std::map<void *, int> mutex_owner;       // mutex -> thread id, -1 free
   std::map<void *, std::vector<int> > cond_waiters;
   std::map<void *, int> objid;             // first-use ordering of objects
+  std::set<void *> mutex_requested;        // mutexes that have been requested at least once
   std::vector<Event> log;
   std::vector<SimDecision> decisions;
   SimStats st;
@@ -234,7 +237,7 @@ int policy_pick(const std::vector<int> &en, int cur_idx)
   if (G.cfg.starve_victim >= 0 && dno >= G.cfg.starve_from && dno < G.cfg.starve_from + G.cfg.starve_len)
     victim = G.cfg.starve_victim % (int) G.threads.size();
   for (int i = 0; i < n; ++i)
-    if (en[i] != victim) cand.push_back(i);
+    if (en[i] != victim && G.threads[en[i]]->delayed_until <= dno) cand.push_back(i);
   if (cand.empty()) for (int i = 0; i < n; ++i) cand.push_back(i);
   else if ((int) cand.size() < n) ++G.st.starve_skips;
   int m = (int) cand.size();
@@ -392,7 +395,7 @@ void sim_sched_begin(const SimConfig &cfg, sim_fatal_cb cb)
       G.pct_points.push_back(1 + (long) G.rng.below(cfg.pct_len > 0 ? cfg.pct_len : 1));
   SimThread *m = new SimThread();
   m->id = 0; m->real = pthread_self(); m->futex = 0; m->st = ST_RUN; m->waiting_on = 0; m->cond_mutex = 0;
-  m->join_target = -1; m->fn = 0; m->arg = 0; m->ret = 0; m->prio = 1000000; m->host = 0;
+  m->join_target = -1; m->fn = 0; m->arg = 0; m->ret = 0; m->prio = 1000000; m->host = 0; m->delayed_until = 0;
   G.threads.push_back(m);
   tl_self = m;
   if (cfg.stall_seconds > 0) { signal(SIGALRM, on_alarm); alarm(cfg.stall_seconds); }
@@ -525,6 +528,7 @@ int __wrap_pthread_create(pthread_t *tid, const pthread_attr_t *attr, void *(*fn
   t->id = (int) G.threads.size(); t->futex = 0; t->st = ST_RUN; t->waiting_on = 0; t->cond_mutex = 0;
   t->join_target = -1; t->fn = fn; t->arg = arg; t->ret = 0;
   t->prio = G.cfg.policy == POL_PCT && !G.cfg.use_replay ? (long) G.rng.below(1000) + 1 : 0;
+  t->delayed_until = 0;
   G.threads.push_back(t);
   int r = 0;
   t->host = 0;
@@ -588,7 +592,13 @@ int __wrap_pthread_mutex_lock(pthread_mutex_t *m)
   std::map<void *, int>::iterator o = G.mutex_owner.find(m);
   if (o != G.mutex_owner.end() && o->second >= 0) ++G.st.lock_contended;
   tl_self->st = ST_BLK_MUTEX; tl_self->waiting_on = m;
+  if (G.cfg.first_use_delay > 0 && !G.cfg.use_replay && G.mutex_requested.insert(m).second)
+    {
+      tl_self->delayed_until = (long) G.decisions.size() + G.cfg.first_use_delay;
+      ++G.st.first_use_delays;
+    }
   reschedule();
+  tl_self->delayed_until = 0;
   G.mutex_owner[m] = tl_self->id;
   tl_self->st = ST_RUN;
   ev("lock-acq", mid);
